@@ -18,7 +18,10 @@
    * no C `int` overflow: padded size + alignment ≤ 2^31 (giroffsets.c computes in `int`).
    * C08_stored: field offsets < 65535 (FieldBlob.struct_offset is 16 bit, 0xFFFF = unknown).
      Without it the statement is FALSE on the unchanged code: C08_stored_counterexample
-     (replayed on the real g-ir-compiler: corpus/C08/finding_witnesses.json, KOff16).
+     (replayed on the real g-ir-compiler: corpus/C08/finding_witnesses.json, KOff16: records,
+     a boxed type and classes); C08_stored_wraps says what is stored instead.  Classes,
+     interfaces and boxed types use the record loop (C08_object_fields, C08_dispatch_shape), so
+     every theorem about `structLayout` / `storeLayout` is about their fields as well.
    * C08_enum_partial: not (a negative member together with a member > G_MAXINT).  Without it
      the statement is FALSE on the unchanged code: C08_enum_counterexample (KEnum33).
    * enumeration members outside [-2^31, 2^32) are outside the typelib format (32-bit ValueBlob).
@@ -63,6 +66,16 @@ theorem C08_size_helper_shapes :
     ∧ Gen.typeSizeShape = "ffi_type *type_ffi; if (type->is_pointer) { type_ffi = &ffi_type_pointer; } else if (type->tag == GI_TYPE_TAG_ARRAY) { gint elt_size, elt_alignment; if (!type->has_size || !get_type_size_alignment(build, type->parameter_type1, &elt_size, &elt_alignment, who)) { *size = -1; *alignment = -1; return FALSE; } *size = type->size * elt_size; *alignment = elt_alignment; return TRUE; } else { if (type->tag == GI_TYPE_TAG_INTERFACE) { return get_interface_size_alignment (build, type, size, alignment, who); } else { type_ffi = gi_type_tag_get_ffi_type (type->tag, type->is_pointer); if (type_ffi == &ffi_type_void) { g_warning (\"...\", who); *size = -1; *alignment = -1; return FALSE; } else if (type_ffi == &ffi_type_pointer) { g_warning (\"...\", who, g_type_tag_to_string (type->tag)); *size = -1; *alignment = -1; return FALSE; } } } g_assert (type_ffi); *size = type_ffi->size; *alignment = type_ffi->alignment; return TRUE;"
     ∧ Gen.ifaceSizeShape = "GIrNode *iface; iface = _g_ir_find_node (build, ((GIrNode*)type)->module, type->giinterface); if (!iface) { _g_ir_module_fatal (build, 0, \"...\", type->giinterface, who); *size = -1; *alignment = -1; return FALSE; } _g_ir_node_compute_offsets (build, iface); switch (iface->type) { case G_IR_NODE_BOXED: { GIrNodeBoxed *boxed = (GIrNodeBoxed *)iface; *size = boxed->size; *alignment = boxed->alignment; break; } case G_IR_NODE_STRUCT: { GIrNodeStruct *struct_ = (GIrNodeStruct *)iface; *size = struct_->size; *alignment = struct_->alignment; break; } case G_IR_NODE_OBJECT: case G_IR_NODE_INTERFACE: { GIrNodeInterface *interface = (GIrNodeInterface *)iface; *size = interface->size; *alignment = interface->alignment; break; } case G_IR_NODE_UNION: { GIrNodeUnion *union_ = (GIrNodeUnion *)iface; *size = union_->size; *alignment = union_->alignment; break; } case G_IR_NODE_ENUM: case G_IR_NODE_FLAGS: { return get_enum_size_alignment ((GIrNodeEnum *)iface, size, alignment); } case G_IR_NODE_CALLBACK: { *size = ffi_type_pointer.size; *alignment = ffi_type_pointer.alignment; break; } default: { g_warning (\"...\", who, _g_ir_node_type_to_string (iface->type)); *size = -1; *alignment = -1; break; } } return *alignment > 0;" := by
   exact ⟨rfl, rfl, rfl, rfl⟩
+
+/-- _g_ir_node_compute_offsets: boxed, record, class and interface entries all go through
+    compute_struct_field_offsets, unions through compute_union_field_offsets; girnode.c copies a
+    non-negative `field->offset` into the 16-bit `FieldBlob.struct_offset` unchanged and writes 0xFFFF
+    for a negative one (model: `computeNode`, `blobOffset`). -/
+theorem C08_dispatch_shape :
+    Gen.computeDispatchShape = ["BOXED:compute_struct_field_offsets", "STRUCT:compute_struct_field_offsets", "OBJECT,INTERFACE:compute_struct_field_offsets", "UNION:compute_union_field_offsets", "ENUM,FLAGS:compute_enum_storage_type"]
+    ∧ Gen.fieldOffsetStoreShape = "if (field->offset >= 0) blob->struct_offset = field->offset; else blob->struct_offset = 0xFFFF;"
+    ∧ Gen.fieldOffsetDeclShape = "guint16 struct_offset;" := by
+  exact ⟨rfl, rfl, rfl⟩
 
 /-- The platform facts the other theorems lean on, decided over the measured tables: every value
     type returned by `gi_type_tag_get_ffi_type` has size = alignment = a power of two ≤ 8 (so every
@@ -269,6 +282,30 @@ example : (computeNode [⟨"S".toList, .struct, [.field "me".toList false (.ifac
     ⟨"S".toList, .struct, [.field "me".toList false (.iface "S".toList false)], []⟩).layout = ⟨-1, -1, [-1]⟩ := by
   decide
 
+/-! ### classes, interfaces and boxed types: the same loop as a record -/
+
+/-- The fields of a `<class>`, `<interface>` or `<glib:boxed>` entry are laid out by the very
+    computation used for a `<record>` with the same members (so C08_struct, C08_sane, C08_unknown and
+    C08_stored speak about them too), both as a top-level entry and when embedded by value. -/
+theorem C08_object_fields (env : List Node) (name : Str) (ms : List Member) (vs : List Int) :
+    computeNode env ⟨name, .object, ms, vs⟩ = computeNode env ⟨name, .struct, ms, vs⟩ ∧
+    computeNode env ⟨name, .iface, ms, vs⟩ = computeNode env ⟨name, .struct, ms, vs⟩ ∧
+    computeNode env ⟨name, .boxed, ms, vs⟩ = computeNode env ⟨name, .struct, ms, vs⟩ ∧
+    (computeNode env ⟨name, .object, ms, vs⟩).layout =
+      structLayout ptrSA ((membersSA (nodeSA env (env.length + 1) [name]) ms).map (·.1)) :=
+  ⟨rfl, rfl, rfl, rfl⟩
+
+/-- class { gint8 a; gdouble d; gint8 c; }: offsets 0, 8, 16 -/
+example : (computeNode [] ⟨"O".toList, .object,
+    [.field "a".toList false (.basic Gen.tagInt8 false), .field "d".toList false (.basic 11 false),
+     .field "c".toList false (.basic Gen.tagInt8 false)], []⟩).layout = ⟨24, 8, [0, 8, 16]⟩ := by decide
+/-- a class embedded by value in a record contributes its struct size and alignment -/
+example : (computeNode [⟨"O".toList, .object, [.field "p".toList false (.basic 0 true),
+      .field "c".toList false (.basic Gen.tagInt8 false)], []⟩]
+    ⟨"S".toList, .struct, [.field "a".toList false (.basic Gen.tagInt8 false),
+      .field "o".toList false (.iface "O".toList false), .field "b".toList false (.basic Gen.tagInt8 false)], []⟩).layout
+    = ⟨32, 8, [0, 8, 24]⟩ := by decide
+
 /-! ### what reaches the typelib -/
 
 /-- Inside the blob field widths nothing is lost and no offset collides with the unknown marker. -/
@@ -303,6 +340,28 @@ theorem C08_stored_counterexample : ¬ C08_stored_full := by
   have := h 70004 (by decide) (by decide)
   revert this
   decide
+
+/-- What exactly happens beyond the 16 bits (the harness attributes a disagreement with gcc to this
+    known defect only when the typelib holds precisely these values): a non-negative offset is stored
+    modulo 2^16; from 65536 on that is a smaller, wrong, positive offset, and 65535 itself is
+    indistinguishable from the "unknown" marker. -/
+theorem C08_stored_wraps (off : Int) (h : 0 ≤ off) :
+    (blobOffset off : Int) = off % 65536 ∧ (65536 ≤ off → blobOffset off < off.toNat) ∧
+    (off = 65535 → blobOffset off = blobOffset (-1)) := by
+  have hge : off ≥ 0 := h
+  refine ⟨?_, ?_, ?_⟩
+  · simp only [blobOffset, hge, ↓reduceIte]; omega
+  · intro h2; simp only [blobOffset, hge, ↓reduceIte]; omega
+  · intro h2; subst h2; decide
+
+/-- the same witness as a class: `class { gint8 a; guint8 buf[70000]; gint32 x; }` — the model of
+    giroffsets.c puts x at 70004 (as gcc does), the FieldBlob says 4468 (ObjectBlob has no size) -/
+example : (computeNode [] ⟨"O".toList, .object,
+      [.field "a".toList false (.basic Gen.tagInt8 false),
+       .field "buf".toList false (.array false true 70000 (.basic Gen.tagUInt8 false)),
+       .field "x".toList false (.basic Gen.tagInt32 false)], []⟩).layout = ⟨70008, 4, [0, 1, 70004]⟩ ∧
+    (storeLayout ⟨70008, 4, [0, 1, 70004]⟩).offsets = [0, 1, 4468] := by decide
+example : (0 : Int) ≤ 70004 ∧ (65536 : Int) ≤ 70004 := by decide
 
 /-! ### enumerations -/
 
